@@ -501,6 +501,11 @@ func (sms *sqlMetadataStore) ListMultipartUploads(ctx context.Context, tx *sql.T
 	nextUploadIdMarker := ""
 
 	for _, objectEntity := range objectEntities {
+		if int32(len(uploads)) >= opts.MaxUploads {
+			// The page is full: the remaining uploads, and the common prefixes
+			// they roll up into, belong to the following pages.
+			break
+		}
 		if delimiter != "" {
 			commonPrefix := determineCommonPrefix(prefix, objectEntity.Key.String(), delimiter)
 			if commonPrefix != nil {
